@@ -10,9 +10,9 @@
    [syntactic ds]: every account of the journal is what the parser and the registry produce
    (first segment a type name, segments non-empty, no colon or NUL byte inside a segment).  It
    makes "the same account" (knut: the same name) and "the same list of segments" coincide. *)
-From Coq Require Import ZArith List Bool Sorting.Sorted.
+From Coq Require Import ZArith List Bool Sorting.Sorted Permutation.
 From Knut Require Import Model.Str Model.Dec Model.Account Model.Ledger Model.Journal Model.Check Model.Cli
-     Spec.WellformedSpec Proofs.CheckProofs Proofs.BuilderProofs Proofs.CheckMain.
+     Spec.WellformedSpec Proofs.CheckProofs Proofs.BuilderProofs Proofs.CheckMain Proofs.CheckPerm.
 Import ListNotations.
 Open Scope Z_scope.
 
@@ -45,6 +45,12 @@ Print Assumptions C04_model_events.
 Theorem C04_iff : forall ds, syntactic ds -> (check_model ds = VOk <-> wellformed ds).
 Proof. exact check_iff. Qed.
 Print Assumptions C04_iff.
+
+(* [syntactic] cannot be dropped: the structured representation contains accounts the parser
+   never produces (a colon inside a segment), on which "same name" and "same segments" differ *)
+Theorem C04_syntactic_needed : exists ds, ~ syntactic ds /\ check_model ds = VOk /\ ~ wellformed ds.
+Proof. exact syntactic_needed. Qed.
+Print Assumptions C04_syntactic_needed.
 
 (* the same for the command, from the parsed (syntax-level) directives *)
 Theorem C04_cmd_iff : forall sds,
@@ -84,18 +90,27 @@ Theorem C04_wellformed_b_spec : forall ds, wellformed_b ds = true <-> wellformed
 Proof. exact wellformed_b_spec. Qed.
 Print Assumptions C04_wellformed_b_spec.
 
-(* Input order.  Proved: only the per-date, per-kind sublists matter (any interleaving of dates
-   and kinds, e.g. any file arrival order that keeps each file's directives of one day and
-   kind together in order).
-   Not proved here (C05's subject): invariance under every permutation of the directive list,
-   i.e. also reordering same-day directives of the same kind
-     forall ds1 ds2, Permutation ds1 ds2 -> (wellformed ds1 <-> wellformed ds2). *)
-Theorem C04_order_irrelevant_partial : forall ds1 ds2,
-  (forall dt k, sel ds1 dt k = sel ds2 dt k) ->
-  (wellformed ds1 <-> wellformed ds2) /\
-  (syntactic ds1 -> syntactic ds2 -> (check_model ds1 = VOk <-> check_model ds2 = VOk)).
-Proof. exact order_irrelevant. Qed.
-Print Assumptions C04_order_irrelevant_partial.
+(* Input order (overlaps with C05).  Well-formedness, hence acceptance, does not depend on the
+   order of the directive list at all: not on how dates and kinds are interleaved (the canonical
+   sequence is the same then, [C04_same_blocks_same_sequence]) and not on the order of same-day
+   directives of one kind (opens and closes of a day are ok iff the accounts are distinct and
+   each is ok on its own; postings only add, with a commutative and associative addition, and
+   assertions come after all transactions of the day and change nothing).  What does depend on
+   the order is *which* directive is reported first when several are wrong. *)
+Theorem C04_order_irrelevant : forall ds1 ds2,
+  Permutation ds1 ds2 -> (wellformed ds1 <-> wellformed ds2).
+Proof. exact wellformed_perm. Qed.
+Print Assumptions C04_order_irrelevant.
+
+Theorem C04_check_order_irrelevant : forall ds1 ds2,
+  Permutation ds1 ds2 -> syntactic ds1 -> (check_model ds1 = VOk <-> check_model ds2 = VOk).
+Proof. exact check_perm. Qed.
+Print Assumptions C04_check_order_irrelevant.
+
+Theorem C04_same_blocks_same_sequence : forall ds1 ds2,
+  (forall dt k, sel ds1 dt k = sel ds2 dt k) -> canonical ds1 = canonical ds2.
+Proof. exact canonical_by_sel. Qed.
+Print Assumptions C04_same_blocks_same_sequence.
 
 (* The pinned code violates the property (finding C04-zero-assertion): a well-formed journal
    with a zero assertion on an untouched position is rejected by [check_cmd false]. *)
